@@ -188,6 +188,11 @@ class FMol(object):
 
     def __init__(self, atoms=(), bonds=(), rings=None, matcher=None):
         self.atoms, self.bonds, self.rings, self.matcher = [], [], rings, matcher
+        if isinstance(atoms, FMol):         # Chem.Mol(mol): a copy
+            src = atoms
+            self.rings, self.matcher = src.rings, src.matcher
+            atoms = [a.copy() for a in src.atoms]
+            bonds = [FBond(b.a, b.b, b.btype, b.inring, b.stereo, b.stereo_atoms) for b in src.bonds]
         for a in atoms:
             self._add_atom(a)
         for b in bonds:
